@@ -4,7 +4,7 @@ import itertools
 import numpy as np
 import pandas as pd
 
-from .. import common as C, gen, scen, drv
+from .. import common as C, gen, scen, drv, translators
 from ..runner import Check
 from . import drvgen, drvcommon as D
 from .C20 import converter_cases
@@ -72,7 +72,7 @@ def scenarios(r, n):
 
 
 def run():
-    chk = Check("C11", props_modules=["GFO.Props.C11"])
+    chk = Check("C11", props_modules=["GFO.Props.C11", "GFO.Gen.MemGenCheck"], gen_steps=(translators.gen_memory,))
     chk.build_and_audit()
     r = C.rng("C11")
     quick = C.tier() != "thorough"
